@@ -266,7 +266,17 @@ func (env *Zlisp) MakeSymbol(name string) *SexpSymbol {
 }
 
 func (env *Zlisp) GenSymbol(prefix string) *SexpSymbol {
-	symname := prefix + strconv.Itoa(env.nextsymbol)
+	// the name must be new: skip names already interned
+	// (by scripts, or by another interpreter sharing the table).
+	n := env.nextsymbol
+	symname := prefix + strconv.Itoa(n)
+	for {
+		if _, used := env.symtable[symname]; !used {
+			break
+		}
+		n++
+		symname = prefix + strconv.Itoa(n)
+	}
 	return env.MakeSymbol(symname)
 }
 
